@@ -104,3 +104,34 @@ Example imports_example :
   ensure_import [SDoc; SFuture; SImport; SImport; SOther; SImport; SOther] = [SDoc; SFuture; SImport; SImport; SImport; SOther; SImport; SOther]
   /\ wf_module [SDoc; SFuture; SImport; SImport; SOther; SImport; SOther] = true.
 Proof. split; reflexivity. Qed.
+
+(* ---- whether the line is needed ---- *)
+Lemma existsb_app_mid : forall (f : estmt -> bool) a x b, f x = true -> existsb f (a ++ [x] ++ b) = true.
+Proof. intros f a x b H. rewrite existsb_app. cbn [app existsb]. rewrite H. apply orb_true_r. Qed.
+
+(* C01: after ensure_import the module has a top-level import of the name - whatever nested imports it contains *)
+Theorem ensure_name_binds : forall body, contains_import (ensure_name body) = true.
+Proof.
+  intros body. unfold ensure_name. destruct (contains_import body) eqn:E; [exact E|].
+  unfold contains_import. apply existsb_app_mid. reflexivity.
+Qed.
+(* the line is inserted exactly when no top-level import exists; nested ones do not count *)
+Theorem ensure_name_noop_iff : forall body, ensure_name body = body <-> contains_import body = true.
+Proof.
+  intros body. split.
+  - intros H. rewrite <- H. apply ensure_name_binds.
+  - intros H. unfold ensure_name. rewrite H. reflexivity.
+Qed.
+(* C08: a second run inserts nothing *)
+Theorem ensure_name_idempotent : forall body, ensure_name (ensure_name body) = ensure_name body.
+Proof. intros body. apply ensure_name_noop_iff. apply ensure_name_binds. Qed.
+(* when the line is inserted it stands in front of all code (code_after_insertion), and the rest of the module is unchanged *)
+Theorem ensure_name_position : forall body, contains_import body = false ->
+  map fst (ensure_name body) = ensure_import (map fst body).
+Proof.
+  intros body H. unfold ensure_name, ensure_import. rewrite H. rewrite !map_app, firstn_map, skipn_map. reflexivity.
+Qed.
+Example ensure_name_nested_example :
+  ensure_name [(SImport, BNone); (SOther, BNested); (SOther, BNone)] = [(SImport, BNone); (SImport, BTop); (SOther, BNested); (SOther, BNone)]
+  /\ ensure_name [(SImport, BNone); (SOther, BNone); (SImport, BTop)] = [(SImport, BNone); (SOther, BNone); (SImport, BTop)].
+Proof. split; reflexivity. Qed.
